@@ -1589,6 +1589,31 @@ def loops_to_comprehensions(fn, comp_locals: dict, known_locals=None) -> int:
     return n_done
 
 
+def branch_assignments_to_conditionals(fn, ifexp_locals: set) -> int:
+    """`if c: x = a` / `else: x = b` is `x = a if c else b` - rewritten when the reference binds x by a conditional expression"""
+    n_done = 0
+    for node in list(_walk_no_defs(fn)):
+        for fld in ("body", "orelse", "finalbody"):
+            block = getattr(node, fld, None)
+            if not (isinstance(block, list) and block and isinstance(block[0], ast.stmt)):
+                continue
+            for i, st in enumerate(block):
+                if not (isinstance(st, ast.If) and len(st.body) == 1 and len(st.orelse) == 1):
+                    continue
+                a, b = st.body[0], st.orelse[0]
+                if not (isinstance(a, ast.Assign) and isinstance(b, ast.Assign) and len(a.targets) == 1 and len(b.targets) == 1
+                        and isinstance(a.targets[0], ast.Name) and isinstance(b.targets[0], ast.Name) and a.targets[0].id == b.targets[0].id
+                        and a.targets[0].id in ifexp_locals):
+                    continue
+                if any(isinstance(x, (ast.NamedExpr, ast.Await, ast.Yield, ast.YieldFrom)) for x in ast.walk(st)):
+                    continue
+                block[i] = ast.copy_location(ast.Assign(targets=[a.targets[0]], value=ast.IfExp(test=st.test, body=a.value, orelse=b.value)), st)
+                n_done += 1
+    if n_done:
+        ast.fix_missing_locations(fn)
+    return n_done
+
+
 def assignments_to_walrus_tests(fn, raw_tests) -> int:
     """`v = E` + `if v:` / `if not v:`  is  `if (v := E):` / `if not (v := E):` - rewritten when the reference tests a walrus of
     the same expression E at that place (its recorded if-tests contain `... := E`)."""
@@ -1778,6 +1803,7 @@ def normalise_temporaries(tree: ast.Module, modname: str) -> int:
         if key not in r.get("if_tests", {}):
             continue
         params = {a.arg for a in ast.walk(fn) if isinstance(a, ast.arg)}
+        n += branch_assignments_to_conditionals(fn, {x[0] for x in locs.get(key, []) if x[1] == "Assign" and x[2] == "IfExp"})
         n += for_else_to_any_tests(fn, {x[0] for x in locs.get(key, [])} | params)
         n += unroll_literal_dict_loops(fn, {x[0] for x in locs.get(key, [])} | params)
         n += assignments_to_walrus_tests(fn, list(r.get("if_tests_raw", {}).get(key, {}).values()))
